@@ -25,6 +25,7 @@ def dispatch (line : String) : String :=
   | some (.atom "c06set" :: args) => Driver.C06.handleSet args
   | some (.atom "c07" :: args) => Driver.C07.handle args
   | some (.atom "c14" :: args) => Driver.C14.handle args
+  | some (.atom "c14legal" :: args) => Driver.C14.handleLegal args
   | some (.atom "c15" :: args) => Driver.C15.handle args
   | some (.atom "c16" :: args) => Driver.C16.handle args
   | some (.atom "c17slice" :: args) => Driver.C17.handleSlice args
